@@ -25,6 +25,9 @@ NearMiss ==
   \cup {Ast(MultiName, k, ks, <<>>) : k \in 1..2, ks \in {<<1, 2>>, <<1, 2, 3>>, <<2, 1>>, <<1, 2, 3, 4>>, <<1, 3>>}}
   \cup {Leaf("after", n) : n \in {9, 10, 99, 100, 500000000, 500000001}}
   \cup {Leaf("older", n) : n \in {9, 10, 99, 100, 4194305, 4194313, 4194314}}
+  \* values that coincide once bits outside the 16-bit value and the unit flag are dropped
+  \cup {Leaf("older", n) : n \in {65535, 65536, 65546, 2097162, 4259850, 8388618, 1073741834}}
+  \cup {Bin("and_v", Un("v", Pk(1)), Leaf("older", n)) : n \in {10, 65546}}
   \cup {Bin("and_v", Un("v", Pk(1)), Leaf("after", n)) : n \in {9, 10}}
   \cup {Tern("andor", Pk(a), Pk(b), Pk(c)) : a \in 1..2, b \in 1..2, c \in 1..2}
   \cup {Bin("or_d", Pk(1), Pk(2)), Bin("or_d", Pk(2), Pk(1)), Bin("or_b", Pk(1), S(Pk(2))), Bin("or_b", Pk(2), S(Pk(1)))}
